@@ -10,6 +10,12 @@ process in the *declared* representation R,   model.drift() + a_R + ∫_[l,r] (x
 the Lévy *density*, must equal  process_drift + Σ_k x_k q_k ; eqDiff² - σ² = quadrature of x²ν on the central interval iff
 infinite variation; |variance of the approximation - variance of the truncated model| <= Σ_k osc_k(x²) q_k (+ central
 second moment for finite variation).
+S on the SIMULATED approximation: the live chain is taken through every simulation scheme `initialisation(product,
+max_step_epsilon)` offers (fixed dates, jump times for a payoff with stochastic dates, maximum time step), the normal variates
+prescribed from the harness; from the diffusion component of the returned paths the coefficient (copula chain: matrix) applied per
+sqrt(dt) is recovered and must be sqrt(σ² + quadrature of x²ν on the central cell) for infinite variation, σ for finite variation
+(copula chain: A·Aᵀ = the variance matrix); the slope of `process.deterministic_path` over the path's times must be the oracle
+mean minus Σ_k x_k q_k.
 """
 from __future__ import annotations
 
@@ -35,9 +41,9 @@ from rpylib.process.markovchain import markovchain as mc_mod
 from rpylib.process.markovchain import markovchainlevycopula as mclc_mod
 from rpylib.process.markovchain.markovchain import MarkovChainProcess
 from rpylib.process.markovchain.markovchainlevycopula import MarkovChainLevyCopula, vol_adjustment_ij
-from rpylib.product.payoff import Vanilla, PayoffType
+from rpylib.product.payoff import Vanilla, PayoffType, Payoff, PayoffDates, PayoffOnTheFly
 from rpylib.product.product import Product
-from rpylib.product.underlying import Spot
+from rpylib.product.underlying import Spot, Asian, Discretisation
 
 RULE = ("1-d structured: model families (HEM, Merton, VG, CGMY in all five activity branches, incl. infinite variation 1<y<2) x "
         "parameter draws x {Levy model (identity), exponential of Levy (log)} x every admissible declared representation "
@@ -46,6 +52,12 @@ RULE = ("1-d structured: model families (HEM, Merton, VG, CGMY in all five activ
         "piecewise-constant densities (truncation active in both directions, zero-mass cells); copula: each margin of 2-d "
         "chains, Clayton / independent / dependent, 5..7 points per axis, fixed and credit grids (unequal axes); variance "
         "matrix: independent copula with infinite-variation margins through the real constructor (process pool + nquad). "
+        "Simulation schemes: every 1-d chain above and every copula chain (finite variation: the margin stream; infinite variation: "
+        "the real nquad constructor and live chains in d = 2, 3 with prescribed vol_adjustment_ij results) is re-initialised on the "
+        "live object for fixed dates (one date / monthly dates), jump times (payoff with PayoffDates.STOCHASTIC; one / monthly "
+        "intervals), maximum time step (epsilon < maturity with either payoff kind, epsilon >= maturity), maturity ~ 16 expected "
+        "jumps, and one path per coordinate simulated with prescribed normal variates (copula chain: one product date only - with "
+        "two or more its simulators raise, known finding C15-copula-several-dates-raise). "
         "non-trivial = chain built and initialised on a well-formed grid with >= 5 points; distinct = distinct (model, "
         "parameters, representation, grid arguments, refinements, method)")
 NOT_PROVED = [
@@ -57,14 +69,22 @@ NOT_PROVED = [
     "vol_adjustment_ij's nquad (copula small-jump covariances) is not modelled; only the combination adj·adjᵀ + σ² vs adj + σ² is",
     "the variance statement for finite variation is `variance_finite_variation` (gap <= central second moment + weighted oscillation)",
     "float rounding of sums (compared at 2^-40 relative to the cancellation-aware scale; oracle 1e-9)",
+    "simulation schemes: oracle only (coefficient / matrix recovered from the simulated diffusion component, drift from "
+    "process.deterministic_path); the law of the variates, of the jump times and of the sampled states is not C04's subject (C02, C12, "
+    "C15, C16); infinite-variation copula chains: A·Aᵀ of each scheme is compared with the variance matrix the constructor computed "
+    "(and, independent copula, its diagonal with the 1-d chains' variances: known finding C04-copula-variance-matrix-squared)",
 ]
 ASSUMPTIONS = [
     "scipy.integrate.quad(epsabs=0, epsrel=1e-13) of the Lévy density on intervals that avoid / end at 0 (oracle only); measured "
     "agreement with the implementation <= 5e-15 relative over seeds 0..5, tolerance 1e-9",
     "the declared representation is changed with LevyTriplet.set_representation on the caller's model: its result a_R is taken as "
     "the declaration (whether the conversion is right is C10)",
+    "the simulation schemes draw their normal variates through numpy.random.normal (replaced for the duration of a path; Infra if it is "
+    "never called although a diffusion component is produced); for a d-dimensional chain a flat draw of d*n variates is read as the "
+    "C-ordered (d, n) array (coordinate-major), an array draw as (..., d, n)",
 ]
-TRUSTED = ["scipy.integrate.quad (oracle only)", "scipy.special functions inside the families' closed forms (C09)"]
+TRUSTED = ["scipy.integrate.quad (oracle only)", "scipy.special functions inside the families' closed forms (C09)",
+           "replacement of numpy.random.normal while a scheme simulates a path (prescribed variates)"]
 
 warnings.filterwarnings("ignore", category=scipy.linalg.LinAlgWarning)
 warnings.filterwarnings("ignore")
@@ -72,7 +92,7 @@ warnings.filterwarnings("ignore")
 MEAN_REL = 1e-9
 METHODS = {"INVERSION": SamplingMethod.INVERSION, "BINARYSEARCHTREEADAPTED1D": SamplingMethod.BINARYSEARCHTREEADAPTED1D}
 REPS = {"ONEONE": LR.ONEONE, "TILDE": LR.TILDE, "CENTER": LR.CENTER, "ZERO": LR.ZERO}
-MAXDEV = {"mean": 0.0, "eqdiff": 0.0, "var_ratio": 0.0, "margin_indep": 0.0}
+MAXDEV = {"mean": 0.0, "eqdiff": 0.0, "var_ratio": 0.0, "margin_indep": 0.0, "scheme_coef": 0.0, "scheme_drift": 0.0}
 
 
 # ------------------------------------------------------------------------------------------------------------ helpers
@@ -167,6 +187,196 @@ class Recorder:
         return False
 
 
+# ------------------------------------------------------------------------------------------------- simulation schemes
+class StochasticDatesPayoff(Payoff):
+    """a payoff whose dates depend on the path (public constructor argument): the chain is then simulated at its jump times"""
+
+    def __init__(self):
+        super().__init__(payoff_dates_type=PayoffDates.STOCHASTIC)
+
+    def evaluate(self, underlying):
+        return underlying
+
+
+class Normals:
+    """prescribed normal variates: numpy.random.normal returns, for a d-dimensional chain, the value rows[k] for every variate of
+    coordinate k (array sizes (..., d, n) as drawn for the fixed dates; a flat size d*n is read as the C-ordered (d, n) array the
+    jump-times schemes reshape it to).  The property speaks about the coefficient the variates are scaled with, not about them."""
+
+    def __init__(self, rows):
+        self.rows, self.calls = np.array(rows, float), 0
+
+    def __enter__(self):
+        self.orig = np.random.normal
+        np.random.normal = self.normal
+        return self
+
+    def __exit__(self, *exc):
+        np.random.normal = self.orig
+        return False
+
+    def normal(self, loc=0.0, scale=1.0, size=None):
+        self.calls += 1
+        d = len(self.rows)
+        if size is None:
+            if d != 1:
+                raise Infra("scripted normals: scalar draw for a multi-dimensional chain")
+            return loc + scale * float(self.rows[0])
+        shape = tuple(int(x) for x in np.atleast_1d(size))
+        if len(shape) >= 2 and shape[-2] == d:
+            vals = np.broadcast_to(self.rows[:, None], shape).copy()
+        elif len(shape) == 1 and shape[0] % d == 0:
+            vals = np.repeat(self.rows, shape[0] // d)
+        elif d == 1:
+            vals = np.full(shape, float(self.rows[0]))
+        else:
+            raise Infra(f"scripted normals: cannot lay out size {shape} for a {d}-dimensional chain")
+        return loc + scale * vals
+
+
+SCHEME_C = [1.0, -2.0, 0.5, 1.5]          # the value of the prescribed variates of the coordinate under observation
+SCHEME_NP_SEED = 20240404                 # Poisson counts / jump times / states of the scheme runs (replayable)
+
+
+def scheme_list(lam, full=True, several_dates=True):
+    """the simulation schemes `initialisation(product, max_step_epsilon)` offers, each with a product that selects it: fixed dates
+    (one date / monthly dates), jump times (payoff with stochastic dates; one interval / monthly intervals), maximum time step
+    (epsilon < maturity with either payoff kind; epsilon >= maturity).  Maturity so that about 16 jumps are expected.
+    several_dates=False for the copula chain: its simulators raise with two or more product dates (known finding of C15,
+    C15-copula-several-dates-raise - path assembly, not C04's subject)."""
+    lam = float(lam) if math.isfinite(float(lam)) and float(lam) > 0 else 1.0
+    T = min(1.0, 16.0 / lam)
+    monthly = several_dates and lam * 0.25 <= 4000
+    out = [dict(name="fixed", und="spot", dates="D", T=T, eps=None),
+           dict(name="jump_times", und="spot", dates="S", T=T, eps=None),
+           dict(name="maximum_step", und="spot", dates="D", T=T, eps=T / 7)]
+    if monthly:
+        out.append(dict(name="fixed/monthly", und="asian", dates="D", T=0.25, eps=None))
+    if full:
+        out += [dict(name="maximum_step/stochastic_dates", und="spot", dates="S", T=T, eps=T / 3),
+                dict(name="maximum_step/eps>=maturity", und="spot", dates="D", T=T, eps=2 * T)]
+        if monthly:
+            out.append(dict(name="jump_times/monthly", und="asian", dates="S", T=0.25, eps=None))
+    return out
+
+
+def scheme_product(sch):
+    und = Spot() if sch["und"] == "spot" else Asian(Discretisation.MONTHLY)
+    payoff = PayoffOnTheFly(lambda x: x) if sch["dates"] == "D" else StochasticDatesPayoff()
+    return Product(payoff_underlying=und, payoff=payoff, maturity=sch["T"])
+
+
+def run_scheme(mc, sch, dim, initialised_with=None):
+    """initialises the live chain for the scheme and simulates `dim` paths, the normal variates of coordinate k being SCHEME_C[k]
+    in run k and 0 for the other coordinates.  From the diffusion component of the returned paths: column k of the matrix A with
+    increment(step) = sqrt(dt) * A * z(step); `nonprop`: largest deviation of a diffusion path from A z * cumsum(sqrt(dt)) relative to
+    its size (one coefficient for every step); the deterministic drift per unit time the scheme applies (slope of
+    process.deterministic_path over the path's times)."""
+    if initialised_with is None:
+        prod = scheme_product(sch)
+        mc.initialisation(prod, max_step_epsilon=sch["eps"])
+    else:
+        prod = initialised_with                          # the caller's initialisation(prod) of the live chain is the scheme
+    A = np.zeros((dim, dim))
+    res = dict(scheme=sch["name"], simulation=type(mc._path_simulation).__name__, nonprop=0.0, steps=0, problem=None)
+    for k in range(dim):
+        c = SCHEME_C[k % len(SCHEME_C)]
+        rows = [0.0] * dim
+        rows[k] = c
+        np.random.seed(SCHEME_NP_SEED + k)
+        with Normals(rows) as nz:
+            mc.pre_computation(1, prod)
+            path = mc.simulate_one_path()
+        times = np.asarray(path.times(), dtype=float)
+        diff = np.asarray(path.diffusion_path)
+        if np.iscomplexobj(diff) and float(np.max(np.abs(diff.imag))) > 0:
+            res["problem"] = "the diffusion component of the simulated path is not real"
+            return res
+        diff = np.atleast_2d(np.asarray(diff.real, dtype=float))
+        if diff.shape != (dim, times.size) or times.size < 2 or not np.all(np.isfinite(diff)) or not np.all(np.diff(times) >= 0):
+            res["problem"] = f"diffusion component of shape {diff.shape} (finite: {bool(np.all(np.isfinite(diff)))}) over {times.size} times"
+            return res
+        S = np.concatenate(([0.0], np.cumsum(np.sqrt(np.diff(times)))))
+        col = diff[:, -1] / (c * S[-1])
+        size = float(np.max(np.abs(col))) * abs(c) * S[-1]
+        if size > 0:
+            if nz.calls == 0:
+                raise Infra("the simulation schemes do not draw their normal variates through numpy.random.normal: cannot prescribe them")
+            res["nonprop"] = max(res["nonprop"], float(np.max(np.abs(diff - np.outer(col, c * S)))) / size)
+        A[:, k] = col
+        res["steps"] = max(res["steps"], times.size - 1)
+    det = np.atleast_2d(np.asarray(mc.deterministic_path(times), dtype=float))
+    res["A"], res["T"] = A, float(times[-1])
+    res["slope"] = [float(x) for x in (det[:, -1] - det[:, 0]) / (times[-1] - times[0])]
+    res["slope_slack"] = [float(8 * np.finfo(float).eps * (abs(a) + abs(b)) / (times[-1] - times[0])) for a, b in zip(det[:, 0], det[:, -1])]
+    return res
+
+
+def schemes_1d(ctx, d, cls, mc, fv, sigma, central2, expected_drift, drift_scale):
+    """S on what each scheme simulates: coefficient² = sigma² (+ quadrature of x² nu on the central cell iff infinite variation);
+    deterministic drift per unit time = oracle mean - sum x_k q_k"""
+    want2 = sigma * sigma + (0.0 if fv else central2)
+    for sch in scheme_list(mc.intensity_of_jumps):
+        r = run_scheme(mc, sch, 1)
+        scls = dict(cls, scheme=sch["name"], infinite_variation=not fv)
+        ctx.branches[f"c04.scheme:{sch['name']}:{'fv' if fv else 'iv'}"] += 1
+        if r["problem"] or r["nonprop"] > 1e-9:
+            ctx.fail("oracle", "c04.scheme_diffusion", d, {"scheme": sch, "simulation": r["simulation"], "what": r["problem"] or
+                     "the diffusion component is not one coefficient times the prescribed variates times sqrt(dt) at every step",
+                     "relative_deviation": r["nonprop"]}, cls=scls)
+            return
+        got2 = float(r["A"][0, 0]) ** 2
+        dv = abs(got2 - want2) / max(want2, 1e-300)
+        if not abs(got2 - want2) <= 1e-8 * want2 + 1e-24:
+            ctx.fail("oracle", "c04.scheme_diffusion", d, {"scheme": sch, "simulation": r["simulation"], "finite_variation": fv,
+                     "coefficient_applied_per_sqrt_dt": float(r["A"][0, 0]), "its_square": got2, "sigma_squared": sigma * sigma,
+                     "quadrature_x2_nu_central": None if fv else central2, "expected_square": want2, "steps": r["steps"]}, cls=scls)
+            return
+        MAXDEV["scheme_coef"] = max(MAXDEV["scheme_coef"], dv if want2 > 0 else 0.0)
+        dev = abs(r["slope"][0] - expected_drift)
+        if not dev <= MEAN_REL * drift_scale + r["slope_slack"][0]:
+            ctx.fail("oracle", "c04.scheme_drift", d, {"scheme": sch, "simulation": r["simulation"], "drift_applied_per_unit_time": r["slope"][0],
+                     "expected_(mean_of_truncated_process_minus_jump_mean)": expected_drift, "deviation": dev, "scale": drift_scale}, cls=scls)
+            return
+        MAXDEV["scheme_drift"] = max(MAXDEV["scheme_drift"], dev / max(drift_scale, 1e-300))
+
+
+def collect_schemes(mc, dim, full=False, first=None):
+    """[(scheme, run)] of the live copula chain; `first` = the product of an initialisation the caller already made (fixed dates)"""
+    out = []
+    for sch in scheme_list(mc.intensity_of_jumps, full=full, several_dates=False):
+        if first is not None and sch["name"] == "fixed":
+            sch = dict(sch, T=float(first.maturity), note="the probe's own initialisation(product)")
+            out.append((sch, run_scheme(mc, sch, dim, initialised_with=first)))
+        else:
+            out.append((sch, run_scheme(mc, sch, dim)))
+    return out
+
+
+def schemes_matrix(ctx, d, cls, mc, dim, V, what_V, full=False, rel=1e-7, pre=None):
+    """S on what each scheme of the copula chain simulates: the matrix A applied to the variates per sqrt(dt) must reproduce the
+    variance matrix, A·Aᵀ = V; returns {scheme: run} for further checks"""
+    top = max(float(np.max(np.abs(V))), 1e-300)
+    runs = {}
+    for sch, r in (pre if pre is not None else collect_schemes(mc, dim, full=full)):
+        scls = dict(cls, scheme=sch["name"])
+        ctx.branches[f"c04.scheme_matrix:{sch['name']}:d{dim}"] += 1
+        if r["problem"] or r["nonprop"] > 1e-9:
+            ctx.fail("oracle", "c04.scheme_diffusion_matrix", d, {"scheme": sch, "simulation": r["simulation"], "what": r["problem"] or
+                     "the diffusion component is not one matrix times the prescribed variates times sqrt(dt) at every step",
+                     "relative_deviation": r["nonprop"]}, cls=scls)
+            continue
+        AAt = r["A"] @ r["A"].T
+        dev = float(np.max(np.abs(AAt - V)))
+        if not dev <= rel * top:
+            ctx.fail("oracle", "c04.scheme_diffusion_matrix", d, {"scheme": sch, "simulation": r["simulation"], "what": "covariance per unit "
+                     "time of the diffusion component the scheme simulates, A·Aᵀ, is not " + what_V, "matrix_applied_per_sqrt_dt": r["A"].tolist(),
+                     "A_At": AAt.tolist(), "expected": np.asarray(V).tolist(), "max_deviation": dev}, cls=scls)
+            continue
+        runs[sch["name"]] = r
+    return runs
+
+
 # ------------------------------------------------------------------------------------------------- one 1-d chain
 def chain_probe(ctx, d, cls, model, rep, g, method_name, corr=True, density=None, exact_second=None, exact_first=None):
     """model: the caller's model already declared in representation `rep` (rep None: as constructed)"""
@@ -236,6 +446,8 @@ def chain_probe(ctx, d, cls, model, rep, g, method_name, corr=True, density=None
             ctx.fail("oracle", "c04.eqdiff", d, {"finite_variation": False, "eqdiff_squared": eq * eq, "sigma_squared": sigma * sigma,
                                                "quadrature_x2_nu_central": central2, "central_interval": [ca, cb]}, cls=cls)
             return
+    # ---- S: the same two statements on what each simulation scheme of the live chain actually applies
+    schemes_1d(ctx, d, cls, mc, fv, sigma, 0.0 if fv else central2, expected - jump_mean, scale)
     # ---- S: variance gap (neighbours of 0 are -h, +h: the central interval is the origin's cell)
     if math.isclose(ax[o - 1], -h, rel_tol=1e-12) and math.isclose(ax[o + 1], h, rel_tol=1e-12) and h <= 2 and lo[o] < 0 < hi[o]:
         out2 = Q(f2, ax[0], lo[o]) + Q(f2, hi[o], ax[-1]) if exact_second is None else exact_second(ax[0], lo[o]) + exact_second(hi[o], ax[-1])
@@ -464,6 +676,7 @@ def _copula_probe(ctx, d, cls, corr):
         rate[cs] = float(mc.model.mass(a, b))
     lam = float(mc.intensity_of_jumps)
     ctx.count("c04.copula", d, nontrivial=n >= 5, branch=f"{d['copula']}:{d['grid']['kind']}:k{d['k']}")
+    margin_drift = {}                                   # margin -> (oracle mean - jump mean, scale) where the margin's mean holds
     for k in range(2):
         dk = dict(d, margin=k)
         ax = axes[k]
@@ -541,6 +754,22 @@ def _copula_probe(ctx, d, cls, corr):
             ctx.branches[f"c04.margin_mean_fails:{d['copula']}"] += 1
         else:
             ctx.branches[f"c04.margin_mean_holds:{d['copula']}"] += 1
+            margin_drift[k] = (expected - jump_mean, scale)
+    # S: what each simulation scheme of the live copula chain applies.  Finite variation (this stream): nothing is added, the
+    # covariance per unit time of the simulated diffusion component is diag(sigma_k²); drift of margin k per unit time as above
+    sig = [float(m.diffusion_coefficient()) for m in cm.models]
+    scls = dict(cls, infinite_variation=False)
+    runs = schemes_matrix(ctx, d, scls, mc, 2, np.diag([x * x for x in sig]), "diag(sigma_k²) (finite variation: nothing is added)",
+                          full=True, rel=1e-9)
+    for name, r in runs.items():
+        for k, (want, scale) in margin_drift.items():
+            dev = abs(r["slope"][k] - want)
+            if not dev <= MEAN_REL * scale + r["slope_slack"][k]:
+                ctx.fail("oracle", "c04.scheme_margin_drift", dict(d, margin=k), {"scheme": name, "simulation": r["simulation"], "margin": k,
+                         "drift_applied_per_unit_time": r["slope"][k], "expected_(mean_of_truncated_margin_minus_jump_mean)": want,
+                         "deviation": dev, "scale": scale}, cls=dict(scls, scheme=name))
+            else:
+                MAXDEV["scheme_drift"] = max(MAXDEV["scheme_drift"], dev / max(scale, 1e-300))
 
 
 # ------------------------------------------------------------------------------------------------- copula variance matrix (#27)
@@ -714,24 +943,35 @@ def variance_matrix_probe(ctx, d, corr=True):
     with SqrtmRecorder() as sq, PoolRecorder() as pr:
         mc = MarkovChainLevyCopula(cm, g, SamplingMethod.BINARYSEARCHTREEADAPTED)
         n_first = len(pr.results)
+        pre = []
         if d.get("init", True):
             mc.initialisation(prod)
-    D = np.asarray(mc._path_simulation.diffusion_matrix)
+            D = np.asarray(mc._path_simulation.diffusion_matrix)
+            # every scheme of the live chain (each initialisation runs the constructor's pool + nquad again)
+            pre = collect_schemes(mc, dim, full=False, first=prod)
+        else:
+            D = np.asarray(mc._path_simulation.diffusion_matrix)
     ctx.count("c04.variance_matrix", d, nontrivial=True, branch=f"{d['copula']}:d{dim}:{'fv' if fv else 'iv'}")
     sig = [float(m.diffusion_coefficient()) for m in margins]
     mirrors = matrix_checks(ctx, d, cls, dim, fv, pr.results[:n_first], sig, sq.args, D, exact=False, corr=corr)
+    Dr = np.asarray(D.real, dtype=float)
+    Vs = [W for W in sq.args if W.shape == (dim, dim)]
+    runs = {}
+    if pre and np.all(np.isfinite(Dr)):
+        runs = schemes_matrix(ctx, d, cls, mc, dim, Vs[-1] if Vs else Dr @ Dr.T, "the variance matrix the constructor computed", pre=pre)
     if d["copula"] != "independent" or fv:
         return
-    V = np.asarray(D.real, dtype=float) @ np.asarray(D.real, dtype=float).T
     want = []
     for k, m in enumerate(margins):
         g1, _ = zoo.make_grid("fixed", None, d["h"], nb_of_points=5, dimension=1)
         want.append(float(MarkovChainProcess(m, SamplingMethod.INVERSION, g1).equivalent_diffusion_coefficient) ** 2)
-    bad = [k for k in range(dim) if not abs(V[k][k] - want[k]) <= 2e-2 * want[k] + 2e-3]      # nquad runs with epsabs = 1e-3
-    if bad:
-        ctx.fail("oracle", "c04.copula_variance", d, {"margin": bad[0], "diag_of_D_Dt": [float(V[k][k]) for k in range(dim)],
-                                                    "variance_of_the_1d_chain_of_the_margin": want, "diffusion_matrix": D.real.tolist()},
-                 cls=cls, mirrors_model=mirrors)
+    for where, M in [("diffusion_matrix", Dr)] + [(f"scheme {name}", r["A"]) for name, r in runs.items()]:
+        V = M @ M.T
+        bad = [k for k in range(dim) if not abs(V[k][k] - want[k]) <= 2e-2 * want[k] + 2e-3]      # nquad runs with epsabs = 1e-3
+        if bad:
+            ctx.fail("oracle", "c04.copula_variance", d, {"margin": bad[0], "matrix": where, "diag_of_D_Dt": [float(V[k][k]) for k in range(dim)],
+                                                        "variance_of_the_1d_chain_of_the_margin": want, "diffusion_matrix": M.tolist()},
+                     cls=cls, mirrors_model=mirrors)
 
 
 SCRIPT_MARGINS = {True: [("hem", dict(sigma=0.0)), ("merton", dict(sigma=0.125)), ("hem", dict(sigma=0.25)), ("merton", dict(sigma=0.5))],
@@ -769,7 +1009,24 @@ def scripted_matrix_probe(ctx, d, corr=True):
         mclc_mod.vol_adjustment_ij = orig
     ctx.count("c04.variance_matrix_scripted", d, nontrivial=True, branch=f"d{dim}:{'fv' if fv else 'iv'}")
     sig = [float(m.diffusion_coefficient()) for m in margins]
-    matrix_checks(ctx, d, cls, dim, fv, pr.results, sig, sq.args, sim.diffusion_matrix, exact=True, corr=corr)
+    # the live chain (real grid, sampler, initialisation) with the same prescribed results, every simulation scheme
+    pre, more = [], []
+    if dim <= 3:
+        g, _ = zoo.make_grid("fixed", None, d["h"], nb_of_points=5, dimension=dim)
+        mclc_mod.vol_adjustment_ij = ScriptedVolAdj(table)
+        try:
+            with SqrtmRecorder() as sq2:
+                mc = MarkovChainLevyCopula(cm, g, SamplingMethod.BINARYSEARCHTREEADAPTED)
+                pre = collect_schemes(mc, dim, full=dim == 2)
+            more = sq2.args
+        finally:
+            mclc_mod.vol_adjustment_ij = orig
+    matrix_checks(ctx, d, cls, dim, fv, pr.results, sig, sq.args + more, sim.diffusion_matrix, exact=True, corr=corr)
+    Dr = np.asarray(np.asarray(sim.diffusion_matrix).real, dtype=float)
+    Vs = [W for W in sq.args if W.shape == (dim, dim)]
+    if pre and np.all(np.isfinite(Dr)):
+        schemes_matrix(ctx, d, cls, mc, dim, Vs[-1] if Vs else Dr @ Dr.T, "the variance matrix assembled from the prescribed results "
+                       "(adj·adjᵀ + diag sigma² as built; finite variation: diag sigma²)", pre=pre)
 
 
 # ------------------------------------------------------------------------------------------------------------ entry points
@@ -797,7 +1054,8 @@ def run(ctx, corr=True):
         d = scripted_matrix_case(rng)
         guarded(ctx, d, dict(stream="variance_matrix_scripted", dimension=d["dim"]), scripted_matrix_probe, ctx, d, corr=corr)
     ctx.notes.append(f"largest deviations: mean oracle {MAXDEV['mean']:.2e} (tolerance {MEAN_REL}), eqDiff² vs quadrature {MAXDEV['eqdiff']:.2e} "
-                     f"(1e-8), variance gap / bound {MAXDEV['var_ratio']:.3f} (<= 1), independent-copula margin mean {MAXDEV['margin_indep']:.2e}")
+                     f"(1e-8), variance gap / bound {MAXDEV['var_ratio']:.3f} (<= 1), independent-copula margin mean {MAXDEV['margin_indep']:.2e}; simulation schemes: coefficient² applied vs oracle "
+                     f"{MAXDEV['scheme_coef']:.2e} (1e-8), drift applied vs oracle {MAXDEV['scheme_drift']:.2e} ({MEAN_REL})")
 
 
 def search(ctx):
